@@ -1,3 +1,4 @@
+#define _GNU_SOURCE
 /* helpers shared by the archive-level explorers (E2/E3): memory input streams, header comparison */
 #ifndef ARC_COMMON_H
 #define ARC_COMMON_H
@@ -111,6 +112,15 @@ static const char *path_invariant(const LHAFileHeader *h)
 		}
 	}
 	return NULL;
+}
+
+/* chunking-independent byte stream hash */
+static uint64_t bytes_hash(const uint8_t *p, size_t n, uint64_t h)
+{
+	size_t i;
+	if (h == 0) h = 0xcbf29ce484222325ULL;
+	for (i = 0; i < n; ++i) { h ^= p[i]; h *= 0x100000001b3ULL; }
+	return h;
 }
 
 static uint64_t header_hash(const LHAFileHeader *h)
